@@ -139,7 +139,11 @@ def _random_system(nrng, n):
         x = None
     b = Z.T @ x if x is not None else nrng.normal(size=n) * 3.0        # kind 3: arbitrary right-hand side
     scale = float(nrng.choice([1.0, 1.0, 1e-3, 1e3]))
-    return {"A": A * scale, "b": b * scale}
+    # matrix and solution magnitudes independently (data in physical units: inverse variances of 1e12, fluxes of 1e-4): the
+    # optimum of (alpha A, alpha beta b) is beta times the optimum of (A, b)
+    alpha = float(nrng.choice([1.0, 1.0, 1e6, 1e12]))
+    beta = float(nrng.choice([1.0, 1.0, 1e-4]))
+    return {"A": A * scale * alpha, "b": b * scale * alpha * beta}
 
 
 def _gen_systems(rng, tier):
